@@ -24,8 +24,13 @@ EXPLANATION = (
     "that tests the discriminator column against the junction value ('ju'); the pipe branch of reindex_elements "
     "rewrites valve.element under et == 'pi'. (R17.2) drop_junctions cascades to drop_elements_at_junctions, drop_pipes "
     "removes the valves attached to the dropped pipes, and every drop / reindex of a table also treats its res_ and "
-    "_geodata tables. (R17.3) the static component list of element_junction_tuples covers every node-element and branch "
-    "component class of the package, and the special junction columns equal the schema's extra junction columns. Not "
+    "_geodata tables; in fuse_junctions the junction the references are redirected to is removed (set difference) from the "
+    "collection that is dropped afterwards, and the redirection precedes the drop. (R17.3) the static component list of element_junction_tuples covers every node-element and branch "
+    "component class of the package, and the special junction columns equal the schema's extra junction columns. "
+    "(R17.4) each index is renumbered once: the tables whose index reindex_elements rewrites together with the element "
+    "(computed: res_<element>, <element>_geodata) are excluded from the direct renumbering in "
+    "create_continuous_elements_index, otherwise the element's lookup of old labels is applied to an already "
+    "renumbered index depending on set iteration order. Not "
     "decided: equality of results up to relabelling (runtime).")
 ASSUMPTIONS = ["pandapower.auxiliary.get_indices maps every value through the lookup", "DataFrame.drop / .loc semantics"]
 TECHNIQUE = "schema derivation from create functions and component classes; guarded-access check over consumers of the reference map"
